@@ -133,6 +133,22 @@ def gen_ctor(rng, tier):
 
 
 def gen_scheduler_case(rng, tier):
+    spec = _gen_scheduler_case(rng, tier)
+    g = spec["ctor"].get("geometric")
+    if g is not None:
+        # long enough to complete the (large) base rung of a geometric system
+        try:
+            base = sync.SynchronousHyperbandRungSystem.geometric(
+                g["min"], g["max"], float(sync.Fraction(g["rf"])), g.get("brackets"))[0][0][0]
+        except AssertionError:
+            base = 1
+        if base > 8:
+            spec["report_all"] = False
+        spec["max_events"] = min(max(spec["max_events"], 4 * base), 200 if tier == "quick" else 600)
+    return spec
+
+
+def _gen_scheduler_case(rng, tier):
     return {
         "level": "scheduler",
         "ctor": gen_ctor(rng, tier),
@@ -145,6 +161,7 @@ def gen_scheduler_case(rng, tier):
         "p_noconfig": rng.choice([0, 0, 0, 0.05, 0.3]),
         "p_nan": rng.choice([0, 0, 0, 0.05]),
         "p_skip": rng.choice([0, 0, 0, 0.02]),
+        "p_reuse": rng.choice([0, 0, 0, 0.02]),
         "checkpointing": rng.random() < 0.6,
         "report_all": rng.random() < 0.5,
         "sign": rng.choice([1, 1, -1]),
@@ -263,13 +280,21 @@ def run_impl(spec):
     if final:
         for br in final[0]["state"]["brackets"]:
             completed += br["current"]
+    # promotions out of a rung with fewer valid entries than slots in the next rung (F4 territory)
+    if final and spec["ctor"].get("kind", "hyperband") == "hyperband":
+        for br in final[0]["state"]["brackets"]:
+            for k in range(1, len(br["rungs"])):
+                lo, hi = br["rungs"][k - 1][1], br["rungs"][k][1]
+                if isinstance(lo, list) and isinstance(hi, list) and sum(1 for e in lo if e[1] not in (None, "nan")) < len(hi):
+                    cnt("rungs_filled_up_with_failed")
     cnt("level:" + spec.get("level", "scheduler"))
     cnt("kind:" + spec["ctor"].get("kind", "hyperband"))
     cnt("rungs_completed", completed)
+    pre = "enumerated_" if spec.get("enumerated") else ""
     if max_open >= 2:
-        cnt("cases_with_2+_open_brackets")
+        cnt(pre + "cases_with_2+_open_brackets")
     if completed >= 1:
-        cnt("cases_with_completed_rung")
+        cnt(pre + "cases_with_completed_rung")
     if spec.get("enumerated"):
         cnt("enumerated")
     for f in mon:
@@ -289,6 +314,16 @@ def extra(ctx):
     """replay of the model-side counterexample (both trials of the base rung fail, the next
     suggest resumes failed trial 0) on the real code"""
     t = run_impl(WITNESS)
+    # generator targets of DESIGN Appendix C (stream `sync`), measured on this run
+    n = ctx.hist.get("level:scheduler", 0) + ctx.hist.get("level:manager", 0) - ctx.hist.get("enumerated", 0)
+    if n >= 100:  # (randomly generated cases; the enumerated tiny systems are counted separately)
+        open2 = ctx.hist.get("cases_with_2+_open_brackets", 0) / n
+        done = ctx.hist.get("cases_with_completed_rung", 0) / n
+        ctx.notes["generator_targets"] = {"cases": n, "two_or_more_open_brackets": round(open2, 3),
+                                          "completed_rung": round(done, 3), "required": {"open": 0.4, "completed": 0.8}}
+        if open2 < 0.4 or done < 0.8:
+            raise RuntimeError(f"weak generator: 2+ open brackets in {open2:.2f} of the cases (need 0.40), "
+                               f"completed rung in {done:.2f} (need 0.80)")
     ctx.notes["counterexample_replay"] = {
         "witness": "rungs [(2,1),(1,2)]: suggest 0, suggest 1, error 0, error 1, suggest 2",
         "real_code_resumes_failed_trial": t["resumes"] == [0],
